@@ -1012,6 +1012,21 @@ pub fn generate_header(rng: &mut Rng, n: u64, emit: &mut dyn FnMut(Vec<String>))
                 all.push(c);
             }
         }
+        if mode == 0 && base.body.is_empty() && base.method != "GET" && base.method != "HEAD" && !base.signed.iter().any(|n| n == "content-length") {
+            // a request signed for the EMPTY payload (its x-amz-content-sha256 is the digest of the empty string) to which a body
+            // is attached afterwards, with no or a zero Content-Length (unsigned): the digest of what arrives is not the signed one
+            let mut c = valid.clone();
+            c.body = b"injected content".to_vec();
+            c.stream = true;
+            if let Some(i) = header_pos(&c, "content-length") {
+                c.headers.remove(i);
+            }
+            if rng.chance(1, 2) {
+                c.headers.push((b"content-length".to_vec(), b"0".to_vec()));
+            }
+            c.kind = "hdr.mut-body-attached-to-empty-signed".into();
+            all.push(c);
+        }
         for c in all {
             emit(c.fields());
             produced += 1;
@@ -1622,6 +1637,19 @@ pub fn generate_post(rng: &mut Rng, n: u64, emit: &mut dyn FnMut(Vec<String>)) {
         all.push(assemble("policy-malformed.no-expiration", &plain, &format!("{{\"conditions\":[{conds_json}]}}"), table(), &file).0);
         all.push(assemble("policy-malformed.no-conditions", &plain, &format!("{{\"expiration\":{}}}", json_str(&expiration)), table(), &file).0);
         all.push(assemble("policy-malformed.expiration-no-instant", &plain, &render_policy("next tuesday", &conds, sp), table(), &file).0);
+        // shapes the policy reader has to refuse: repeated top-level members, a condition with a fourth element, an empty
+        // object condition, a field reference without `$`, a non-string match value, a negative or fractional bound
+        all.push(assemble("policy-malformed.expiration-twice", &plain, &format!("{{\"expiration\":{},\"expiration\":{},\"conditions\":[{conds_json}]}}", json_str("2000-01-01T00:00:00Z"), json_str(&expiration)), table(), &file).0);
+        all.push(assemble("policy-malformed.conditions-twice", &plain, &format!("{{\"expiration\":{},\"conditions\":[{conds_json}],\"conditions\":[]}}", json_str(&expiration)), table(), &file).0);
+        all.push(assemble("policy-malformed.four-elements", &plain, &render_policy(&expiration, &with_conds(&|c| c.push(PCond::Raw("[\"eq\",\"$key\",\"up/a\",\"x\"]".into()))), sp), table(), &file).0);
+        all.push(assemble("policy-malformed.empty-object", &plain, &render_policy(&expiration, &with_conds(&|c| c.push(PCond::Raw("{}".into()))), sp), table(), &file).0);
+        all.push(assemble("policy-malformed.no-dollar", &plain, &render_policy(&expiration, &with_conds(&|c| c.push(PCond::Raw("[\"starts-with\",\"key\",\"\"]".into()))), sp), table(), &file).0);
+        all.push(assemble("policy-malformed.number-value", &plain, &render_policy(&expiration, &with_conds(&|c| c.push(PCond::Raw("{\"success_action_status\":201}".into()))), sp), table(), &file).0);
+        all.push(assemble("policy-malformed.negative-bound", &plain, &render_policy(&expiration, &with_conds(&|c| c.push(PCond::Raw("[\"content-length-range\",-1,1000000]".into()))), sp), table(), &file).0);
+        all.push(assemble("policy-malformed.fraction-bound", &plain, &render_policy(&expiration, &with_conds(&|c| c.push(PCond::Raw("[\"content-length-range\",0,1000000.5]".into()))), sp), table(), &file).0);
+        // compliant: bounds written as decimal strings, an unknown top-level member
+        all.push(assemble("policy-ok.string-bounds", &plain, &render_policy(&expiration, &with_conds(&|c| { c.retain(|x| !matches!(x, PCond::Range { .. })); c.push(PCond::Raw(format!("[\"content-length-range\",\"0\",\"{}\"]", file.len() + 7))); }), sp), table(), &file).0);
+        all.push(assemble("policy-ok.extra-member", &plain, &format!("{{\"note\":[1,{{\"a\":null}}],\"expiration\":{},\"conditions\":[{conds_json}]}}", json_str(&expiration)), table(), &file).0);
         all.push(assemble("policy-malformed.unknown-condition", &plain, &render_policy(&expiration, &with_conds(&|c| c.push(PCond::Raw("[\"ends-with\",\"$key\",\".txt\"]".into()))), sp), table(), &file).0);
 
         // ---- signature half: one field altered after signing
